@@ -69,7 +69,11 @@ def replay_kani(ob, r, ctx):
     ok_any = False
     body += ['--- concrete playback unit tests (inserted into the scratch copy of the harness crate) ---', playback_sources(crate), '']
     # all generated tests in ONE native run (a failing check and the cover witnesses each get a test; only the former panic)
-    rc2, out2, _ = run('cd %s && cargo kani playback -Z concrete-playback -- kani_concrete_playback' % crate, timeout=1500, mem_gb=16, env=env)   # env: the unit's --cfg flags
+    # one test at a time: the generated tests share the unit's `static mut` ghost state (two of them running in parallel threads corrupt each other:
+    # a reproducing counterexample then passes natively and is reported as 'did not replay')
+    env2 = dict(env) if env else vlib.env_offline({})
+    env2['RUST_TEST_THREADS'] = '1'
+    rc2, out2, _ = run('cd %s && cargo kani playback -Z concrete-playback -- kani_concrete_playback' % crate, timeout=1500, mem_gb=16, env=env2)   # env: the unit's --cfg flags
     failed_tests = re.findall(r'^test (\S*kani_concrete_playback_\w+) \.\.\. FAILED', out2, flags=re.M)
     passed_tests = re.findall(r'^test (\S*kani_concrete_playback_\w+) \.\.\. ok', out2, flags=re.M)
     msg = re.findall(r"panicked at [^\n]*\n[^\n]*", out2)
